@@ -70,3 +70,87 @@ package beaconing
 //@   props C25
 //@   # a beacon handed to the handler has passed seg.BeaconFromPB / Validate: it has at least one AS entry
 //@   requires b.Segment != nil && len(b.Segment.ASEntries) >= 1 && h.Inserter != nil && h.Interfaces != nil
+
+//@ import trust "github.com/scionproto/scion/private/trust"
+//@ import path "github.com/scionproto/scion/pkg/slayers/path"
+//@ import addr "github.com/scionproto/scion/pkg/addr"
+
+//@ # ---- C23: the AS entry appended by the extender.
+//@ iface SignerGen.Generate
+//@   modifies nothing
+//@ # call log (ghost): the end of the validity most recently obtained from a signer
+//@ ghost var lastSignerExp int64
+//@ iface Signer.Validity
+//@   modifies lastSignerExp
+//@   ensures result.NotAfter.ext == lastSignerExp && 0 <= lastSignerExp && lastSignerExp <= 0x2000000000000000
+//@ extern github.com/scionproto/scion/pkg/metrics/v2.GaugeSet
+//@   modifies nothing
+
+//@ func (*DefaultExtender).remoteIA
+//@   props C23
+//@   requires s != nil && s.Intfs != nil
+//@   modifies nothing
+//@   ensures result1 == nil ==> (ifID == 0) == (result0 == 0)
+//@ func (*DefaultExtender).remoteMTU
+//@   props C23
+//@   requires s != nil && s.Intfs != nil
+//@   modifies nothing
+//@ func (*DefaultExtender).remoteInfo
+//@   props C23
+//@   requires s != nil && s.Intfs != nil
+//@   modifies nothing
+//@   ensures result3 == nil && ifID != 0 ==> result0 != 0 && result1 != 0
+
+//@ # the hop field carries exactly the interfaces and the expiration time it was asked for (its MAC: C22/C01)
+//@ func (*DefaultExtender).createHopF
+//@   props C23
+//@   modifies path.hashSt
+//@   puredyn
+//@   requires s != nil
+//@   ensures result0.ConsIngress == ingress && result0.ConsEgress == egress && result0.ExpTime == expTime
+//@ func (*DefaultExtender).createHopEntry
+//@   props C23
+//@   modifies path.hashSt
+//@   requires s != nil && s.Intfs != nil
+//@   ensures result2 == nil ==> result0.HopField.ConsIngress == ingress && result0.HopField.ConsEgress == egress && result0.HopField.ExpTime == expTime
+//@ func (*DefaultExtender).createPeerEntry
+//@   props C23
+//@   modifies path.hashSt
+//@   requires s != nil && s.Intfs != nil
+//@   ensures result2 == nil ==> result0.HopField.ConsIngress == ingress && result0.HopField.ConsEgress == egress && result0.HopField.ExpTime == expTime
+//@ # every peer hop field is created for the same egress interface and with the SAME expiration time as the hop field
+//@ func (*DefaultExtender).createPeerEntries
+//@   props C23
+//@   modifies path.hashSt
+//@   requires s != nil && s.Intfs != nil
+//@   loop 1 invariant 0 <= (rangeindex+1) && (rangeindex+1) <= len(peers)
+//@   loop 1 invariant forall i int :: 0 <= i && i < len(peerEntries) ==> peerEntries[i].HopField.ExpTime == expTime && peerEntries[i].HopField.ConsEgress == egress
+//@   ensures result2 == nil ==> forall i int :: 0 <= i && i < len(result0) ==> result0[i].HopField.ExpTime == expTime && result0[i].HopField.ConsEgress == egress
+
+//@ # Extend: position consistency, names, interfaces, and the expiry bound by the signer (lastSignerExp is
+//@ # the end of the validity of the signer selected in this call)
+//@ macro lastE(p) = p.ASEntries[len(p.ASEntries)-1]
+//@ func (*DefaultExtender).Extend
+//@   props C23
+//@   puredyn
+//@   # the accumulator value (C22) plays no role in the clauses below: keep its recursive definition out of the queries
+//@   frameonly extractBeta
+//@   requires s != nil && s.Intfs != nil && s.SignerGen != nil && pseg != nil && sigmaDef(pseg)
+//@   # sane clock values (A8): the segment timestamp is a Unix time in nanoseconds
+//@   requires 0 <= pseg.Info.Timestamp.ext && pseg.Info.Timestamp.ext <= 0x2000000000000000
+//@   ensures result == nil ==> (ingress == 0) == (old(len(pseg.ASEntries)) == 0)
+//@   ensures result == nil ==> !(ingress == 0 && egress == 0)
+//@   ensures result == nil ==> len(pseg.ASEntries) == old(len(pseg.ASEntries)) + 1
+//@   ensures result == nil ==> lastE(pseg).Local == s.IA && (egress == 0) == (lastE(pseg).Next == 0)
+//@   ensures result == nil ==> lastE(pseg).HopEntry.HopField.ConsIngress == ingress && lastE(pseg).HopEntry.HopField.ConsEgress == egress
+//@   ensures result == nil ==> pseg.Info.Timestamp.ext + (int64(lastE(pseg).HopEntry.HopField.ExpTime)+1)*337500000000 <= lastSignerExp
+//@   ensures result == nil ==> forall i int :: 0 <= i && i < len(lastE(pseg).PeerEntries) ==> lastE(pseg).PeerEntries[i].HopField.ExpTime == lastE(pseg).HopEntry.HopField.ExpTime && lastE(pseg).PeerEntries[i].HopField.ConsEgress == egress
+
+//@ # extensions of the AS entry (static info, EPIC authenticators, digests) are not interpreted
+//@ func (StaticInfoCfg).Generate
+//@   trusted
+//@   modifies nothing
+//@ extern (*github.com/scionproto/scion/pkg/segment/extensions/epic.Detached).DigestInput
+//@   modifies nothing
+//@ extern (*github.com/scionproto/scion/pkg/segment/extensions/digest.Digest).Set
+//@   modifies nothing
